@@ -42,10 +42,10 @@ Definition e_fwake (w : Z) : gst -> event := fun _ => mkEv DV_FUTEX_WAKE 0 w 0 0
    it runs, push their contexts and go to sleep; 5 hands the lock to 6, 6 runs its item and hands the lock to 7, 7 runs
    its item and gives the lane back *)
 Definition sched1 : list (Z * (gst -> event)) :=
-  [ (5, e_call 1); (5, e_loadq); (5, e_casq 2 (b_fast 5)); (5, e_begin 5);
-    (6, e_call 1); (6, e_loadq); (6, e_loadq); (6, e_xchgt 1000); (6, e_storeh 1000); (6, e_loadq);
+  [ (5, e_call 1); (5, e_tau 0); (5, e_loadq); (5, e_casq 2 (b_fast 5)); (5, e_begin 5);
+    (6, e_call 1); (6, e_tau 0); (6, e_loadq); (6, e_loadq); (6, e_xchgt 1000); (6, e_storeh 1000); (6, e_loadq);
     (6, e_casq 3 (fun v => b_pushw 6 v 0)); (6, e_sub 6); (6, e_eload 6); (6, e_fwait 6);
-    (7, e_call 3); (7, e_loadq); (7, e_loadq); (7, e_loadq); (7, e_xchgt 2000); (7, e_tau 0); (7, e_sub 7); (7, e_eload 7);
+    (7, e_call 3); (7, e_loadq); (7, e_tau 1); (7, e_loadq); (7, e_xchgt 2000); (7, e_tau 0); (7, e_sub 7); (7, e_eload 7);
     (7, e_fwait 7) ].
 Definition sched2 : list (Z * (gst -> event)) :=
   [ (5, e_end 5); (5, e_tau 1); (5, e_loadq); (5, e_loadh); (5, e_storeh 2000); (5, e_loadq);
@@ -84,7 +84,7 @@ Definition schedR1 : list (Z * (gst -> event)) :=
   [ (5, e_call 4); (5, e_xchgt 3000); (5, e_storeh 3000); (5, e_loadt); (5, e_loadq); (5, e_casq 3 (fun v => b_wakeup 3 v 0));
     (5, e_tau 0); (5, e_ret);
     (6, e_loadq); (6, e_casq 2 (b_lock 6 7));
-    (7, e_call 3); (7, e_loadq); (7, e_loadq); (7, e_loadq); (7, e_xchgt 4000); (7, e_tau 0); (7, e_sub 7); (7, e_eload 7); (7, e_fwait 7);
+    (7, e_call 3); (7, e_loadq); (7, e_tau 1); (7, e_loadq); (7, e_xchgt 4000); (7, e_tau 0); (7, e_sub 7); (7, e_eload 7); (7, e_fwait 7);
     (6, e_tau 1); (6, e_loadh); (6, e_loadq); (6, e_storeh 4000); (6, e_begin 0); (6, e_end 0);
     (6, e_loadq); (6, e_storeh 0); (6, e_cast 1); (6, e_begin 7) ].
 Definition schedR2 : list (Z * (gst -> event)) :=
